@@ -12,7 +12,7 @@ impl Method for TRIMA {
 	type Output = ValueType;
 	open spec fn inv(&self) -> bool { self.sma1.inv() && self.sma2.inv() }
 	open spec fn rejects(parameters: PeriodType) -> bool { parameters == 0 }
-	open spec fn new_req(parameters: PeriodType, initial_value: &ValueType) -> bool { parameters < PeriodType::MAX }
+	open spec fn new_req(parameters: PeriodType, initial_value: &ValueType) -> bool { true }
 	open spec fn fresh(parameters: PeriodType, initial_value: &ValueType, s: &Self) -> bool {
 		SMA::fresh(parameters, initial_value, &s.sma1) && SMA::fresh(parameters, initial_value, &s.sma2)
 	}
@@ -40,7 +40,7 @@ impl Method for HMA {
 	type Output = ValueType;
 	open spec fn inv(&self) -> bool { self.wma1.inv() && self.wma2.inv() && self.wma3.inv() }
 	open spec fn rejects(parameters: PeriodType) -> bool { parameters == 0 || parameters == 1 }
-	open spec fn new_req(parameters: PeriodType, initial_value: &ValueType) -> bool { parameters < PeriodType::MAX && (parameters as int) <= 0xffff_ffff }
+	open spec fn new_req(parameters: PeriodType, initial_value: &ValueType) -> bool { (parameters as int) <= 0xffff_ffff }
 	open spec fn fresh(parameters: PeriodType, initial_value: &ValueType, s: &Self) -> bool {
 		&&& WMA::fresh((parameters / 2) as PeriodType, initial_value, &s.wma1)
 		&&& WMA::fresh(parameters, initial_value, &s.wma2)
@@ -63,7 +63,6 @@ impl Method for HMA {
 			axiom_sqrt(l);
 			let s = rsqrt(l);
 			assert(1real <= s && s < l) by(nonlinear_arith) requires s >= 0real, s * s == l, l >= 2real;
-			assert((length as int) < PeriodType::MAX as int);
 		}
 	}
 //@hint result
